@@ -1,6 +1,10 @@
 #!/usr/bin/env python3
 """Prints the catch matrix (markdown) from /verif/seeded/*/meta.json and /verif/seeded/own_results.json."""
-import glob, json, os
+import glob, json, os, sys, io, re
+_out = io.StringIO()
+_real_print = print
+def print(*a, **k):
+    _real_print(*a, file=_out, **k)
 rows = []
 for d in sorted(glob.glob('/verif/seeded/*/meta.json')):
     m = json.load(open(d))
@@ -25,3 +29,15 @@ if os.path.exists(p):
     print("|---|---|---|")
     for k, v in sorted(own.items()):
         print("| %s | %s | %s |" % (k, v.get('note', ''), ', '.join('%s: %s' % (p, 'caught' if r == 1 else ('silent' if r == 0 else 'broken')) for p, r in v.get('results', {}).items())))
+
+text = _out.getvalue()
+if '--update-design' in sys.argv:
+    d = open('/verif/DESIGN.md').read()
+    d = re.sub(r'(<!-- MATRIX-BEGIN[^>]*-->\n).*?(<!-- MATRIX-END -->)', lambda m: m.group(1) + text + m.group(2), d, flags=re.S)
+    n = len(rows)
+    caught = sum(1 for r in rows if 'caught' in r and 'MISSED' not in r)
+    d = re.sub(r'<!-- COUNT -->.*?<!-- /COUNT -->', '<!-- COUNT -->%d of the %d independent seeded defects listed below are caught by the quick tier.<!-- /COUNT -->' % (caught, n), d, flags=re.S)
+    open('/verif/DESIGN.md', 'w').write(d)
+    _real_print('DESIGN.md updated: %d/%d' % (caught, n))
+else:
+    _real_print(text)
